@@ -52,10 +52,37 @@ def _enc_key(k):
     return {"type": "scalar", "v": k}
 
 
+UNHASHABLE = ("dictkeys", "dictview", "set", "nparray", "bytearray")
+
+
 def _dec_key(e):
-    if e["type"] == "tuple":
-        return tuple(e["v"])
-    return e["v"]
+    """Keys other than str/tuple/list that *iterate* like a value tuple are foreign keys too."""
+    t, v = e["type"], e["v"]
+    if t == "tuple":
+        return tuple(v)
+    if t == "gen":
+        return (x for x in v)
+    if t == "iter":
+        return iter(v)
+    if t == "dictkeys":
+        return dict.fromkeys(v)
+    if t == "dictview":
+        return dict.fromkeys(v).keys()
+    if t == "frozenset":
+        return frozenset(v)
+    if t == "set":
+        return set(v)
+    if t == "range":
+        return range(v[0], v[0] + len(v))
+    if t == "bytes":
+        return bytes(v)
+    if t == "bytearray":
+        return bytearray(v)
+    if t == "nparray":
+        import numpy as np
+
+        return np.asarray(v)
+    return v
 
 
 def gen(rng: random.Random, k: int, tier: str) -> dict:
@@ -88,6 +115,18 @@ def gen(rng: random.Random, k: int, tier: str) -> dict:
         if len(t) > 1:
             look.append({"op": "lookup", "key": _enc_key(tuple(t[:-1]))})
         look.append({"op": "lookup", "key": _enc_key(str(tuple(t)))})
+        # other iterables whose elements are exactly the value tuple: still not 'the value tuple as list or tuple'
+        kinds = ["gen", "iter", "dictkeys", "dictview", "nparray"]
+        if len(set(map(str, t))) == len(t) and len(t) == 1:
+            kinds += ["frozenset", "set"]
+        if all(isinstance(x, int) and not isinstance(x, bool) for x in t):
+            if all(b_ - a_ == 1 for a_, b_ in zip(t, t[1:])):
+                kinds.append("range")
+            if all(0 <= x < 256 for x in t):
+                kinds += ["bytes", "bytearray"]
+        for kd in rng.sample(kinds, min(len(kinds), 3)):
+            if kd != "nparray" or not any(isinstance(x, str) for x in t):
+                look.append({"op": "lookup", "key": {"type": kd, "v": list(t)}})
     for n in names:
         for cand in (n.upper(), n.lower(), n[:-1], n + "_", " " + n, repr(n)):
             if cand and cand not in names:
@@ -426,10 +465,20 @@ class World:
         pyhf, ctx = self.pyhf, self.ctx
         key = _dec_key(op["key"])
         rk = tuple(key) if isinstance(key, list) else key
-        want = self.ref.get(rk) if not isinstance(rk, (dict,)) else None
+        plain = op["key"]["type"] in ("tuple", "list", "scalar")
+        want = self.ref.get(rk) if plain and not isinstance(rk, (dict,)) else None
         ctx.c.oracle_evals["lookup"] += 1
+        if not plain:
+            ctx.probe("lookup_iterable_lookalike")
         try:
             got = self.ps[key]
+        except TypeError as e:
+            if op["key"]["type"] in UNHASHABLE and want is None:
+                # an unhashable object cannot be a key of anything: Python's own TypeError is a refusal too
+                ctx.probe("lookup_unhashable_refused")
+                return "typeerror"
+            ctx.fail("lookup", {"cls": "wrong_exception", "exc": "TypeError"}, f"key {key!r}: TypeError: {e}")
+            return "exc"
         except pyhf.exceptions.InvalidPatchLookup:
             if want is None:
                 ctx.probe("lookup_foreign_raises")
@@ -441,7 +490,7 @@ class World:
             return "exc"
         if want is None:
             ctx.fail("lookup", {"cls": "foreign_key_returned", "key": key if isinstance(key, str) else op["key"]["type"]},
-                     f"foreign key {key!r} returned {got!r} instead of raising InvalidPatchLookup")
+                     f"foreign key {op['key']['type']}:{op['key']['v']!r} returned {got!r} instead of raising InvalidPatchLookup")
             return "returned!"
         ctx.check(self._same_patch(got, want), "lookup", {"cls": "wrong_patch"}, lambda: f"key {key!r} returned {got!r}, expected patch #{want}")
         ctx.probe("lookup_own_ok")
